@@ -110,8 +110,8 @@ def supply_live(spec, rows, phase):
 
 
 def run(ctx, case):
-    spec = case["spec"]
     df, info, _ = _rows.solve_and_judge(ctx, case, ACCEPT)
+    spec = case["spec"]  # the effective spec (a build history may have reset phase configurations)
     if df is None:
         return
     order, per, _ = M.split_table(df)
